@@ -218,7 +218,63 @@ pub fn condition_chain(depth: usize) -> Vec<u8> {
     v
 }
 
+/// a format-0 name table with one record (platform, encoding) whose string is `s`
+pub fn name_table(platform: u16, encoding: u16, s: &[u8]) -> Vec<u8> {
+    let mut v = vec![];
+    be16(&mut v, 0);
+    be16(&mut v, 1);
+    be16(&mut v, 18); // storage offset
+    be16(&mut v, platform);
+    be16(&mut v, encoding);
+    be16(&mut v, 0); // language
+    be16(&mut v, 1); // name id
+    be16(&mut v, s.len() as u16);
+    be16(&mut v, 0);
+    v.extend_from_slice(s);
+    v
+}
+
+fn name_seeds(out: &mut Vec<Seed>) {
+    let ty = crate::registry::find("name::Name");
+    let d = crate::drivers::find("name").expect("name");
+    let ascii = |len: usize| -> Vec<u8> { (0..len).map(|i| if i % 2 == 0 { 0x00 } else { 0x41 + (i / 2) as u8 }).collect() };
+    for (p, e) in [(0u16, 3u16), (0, 4), (1, 0), (3, 0), (3, 1), (3, 10), (2, 0)] {
+        for len in 0..=9usize {
+            let mut pats: Vec<(String, Vec<u8>)> = vec![("ascii".into(), ascii(len)), ("ff".into(), vec![0xFF; len])];
+            let mut low = ascii(len);
+            if len >= 1 {
+                low[0] = 0xDC;
+            }
+            pats.push(("low-surrogate@0".into(), low));
+            for pos in 0..len {
+                let mut s = ascii(len);
+                s[pos] = 0xD8;
+                if pos + 1 < len {
+                    s[pos + 1] = 0x00;
+                }
+                pats.push((format!("high-surrogate@{pos}"), s));
+            }
+            for (pn, s) in pats {
+                let data = name_table(p, e, &s);
+                let n = data.len();
+                out.push(Seed {
+                    name: format!("synth:name/platform={p},encoding={e},len={len},{pn}"),
+                    class: "synth",
+                    ty,
+                    args: [0; 3],
+                    drivers: vec![(d, [0; 3])],
+                    data,
+                    ctx: vec![],
+                    pos_limit: n,
+                    extra_trunc: vec![],
+                });
+            }
+        }
+    }
+}
+
 pub fn synth_seeds(out: &mut Vec<Seed>) {
+    name_seeds(out);
     let gvar2 = crate::drivers::find("gvar2").expect("gvar2");
     // (a) all reference graphs over 3 glyphs x 25 shapes
     let sh = shapes();
